@@ -21,6 +21,8 @@ import Mathlib.Tactic.Linarith
 import Mathlib.Tactic.Ring
 import Mathlib.Algebra.Order.Field.Rat
 import Alpaqa.Proofs.PantrChain
+import Alpaqa.Proofs.PantrDoc
+import Alpaqa.Proofs.PantrSized
 
 namespace Alpaqa.Pantr.ExampleQ
 open Alpaqa Alpaqa.Pantr Alpaqa.Gen
@@ -36,7 +38,7 @@ def PCq (v : Vec ℚ) : Vec ℚ := v.map clampQ
 
 /-- ψ(x) = x²/2, C = [−1, 10], one variable, one constraint row with ŷ(x) = x -/
 def Pq : Problem ℚ where
-  psiGradPsi x := ((x.headD 0) * (x.headD 0) / 2, [x.headD 0], [])
+  psiGradPsi x := ((x.headD 0) * (x.headD 0) / 2, [x.headD 0], [x.headD 0])
   psi x := ((x.headD 0) * (x.headD 0) / 2, [x.headD 0])
   gradPsi x := [x.headD 0]
   gradL x _ := [x.headD 0]
@@ -93,19 +95,72 @@ theorem prox_sized : ProxContract.Sized 1 (fun _ => (0 : ℚ)) domq Pq.prox := b
   · simp [Pq, vsub, vzip]
   · rintro u ⟨c, rfl, h1, h2⟩ -
     have hn := clampQ_nearest (a - γ * b) c h1 h2
-    simp only [Pq, List.headD_cons, sqNorm, dot, vsum, redux, vmul, vsub, vzip, List.zipWith_cons_cons,
+    simp only [Pq, PCq, smul, sqNorm, dot, vsum, redux, vmul, vsub, vzip, List.zipWith_cons_cons,
       List.zipWith_nil_right, List.map_cons, List.map_nil, List.foldl_nil, zero_add]
     have h2γ : (0 : ℚ) < 2 * γ := by linarith
     rw [div_add' _ _ _ h2γ.ne', div_add' _ _ _ h2γ.ne', div_le_div_iff_of_pos_right h2γ]
     nlinarith
 
 theorem descHyp : DescHyp 1 (fun _ => (0 : ℚ)) domq Pq prq :=
-  ⟨prox_sized, fun _ => rfl, fun _ _ => rfl, fun h => by simp [prq] at h⟩
+  ⟨prox_sized, fun _ => rfl, fun h => by simp [prq] at h⟩
+
+/-- the problem oracles are sized (`n = 1`, `m = 1`) -/
+theorem problemSized : ProblemSized 1 1 Pq := by
+  refine ⟨fun _ _ => rfl, fun _ _ => rfl, fun _ _ => rfl, fun _ _ => rfl, fun _ _ _ _ => rfl, ?_, ?_⟩
+  · intro γ x g hx hg
+    simp [Pq, PCq, vsub, vzip, smul, hx, hg]
+  · intro γ x g hx hg
+    simp [Pq, PCq, vsub, vzip, smul, hx, hg]
+
+/-- the provider's state is a call counter (no vectors): the trivial invariant; every proposal is a
+    1-vector -/
+theorem dirSized : DirSized 1 dirq (fun _ => True) := by
+  refine ⟨fun _ _ _ _ _ _ _ _ _ _ _ => trivial, fun _ _ _ _ _ _ _ _ _ _ _ _ _ => trivial, ?_,
+    fun _ _ _ _ _ _ _ _ _ _ _ _ _ _ _ _ => trivial, fun _ _ _ _ => trivial, fun _ _ => trivial⟩
+  intro d γ x xh p g Δ q _ _ _ _ _ _
+  simp only [dirq]
+  split_ifs <;> rfl
+
+/-- the three gradient oracles of the example agree -/
+theorem gradOracles : GradOracles Pq := ⟨fun _ => rfl, fun _ => rfl⟩
 
 theorem paramsOK : ParamsOK prq := ⟨by norm_num [prq], by norm_num [prq], by norm_num [prq]⟩
 
 /-- `L_max = 100 ≤ L_0·2⁸ = 128`, and `8 < qubFuel = 16` -/
 theorem fuelOK : FuelOK prq 8 :=
   ⟨by norm_num [prq], by norm_num [prq], by norm_num [prq], by norm_num [prq]⟩
+
+/-! ### The library's default `PANTRParams` (pantr.hpp, lipschitz.hpp), over `ℚ` -/
+
+/-- `PANTRParams{}` with `LipschitzEstimateParams{}`: `L_0 = 0` (finite-difference estimate), `ε = 1e-6`,
+    `δ = 1e-12`, `Lγ_factor = 0.95`, `max_iter = 100`, `L_min = 1e-5`, `L_max = 1e20`, `ApproxKKT`,
+    `max_no_progress = 10`, tolerance factors `10·2⁻⁵²`, thresholds `0.2 / 0.8`, radius factors
+    `0.35 / 0.999 / 2.5`, `initial_radius = NaN` (any value here: `0` selects the same branch),
+    `min_radius = 100·2⁻⁵²`, flags as in the header; `InnerSolveOptions`: `always_overwrite_results = true`,
+    `tolerance = 1e-8`; the model's `backtrack_qub` fuel as the replay driver passes it (4096). -/
+def defaultParams : Params ℚ :=
+  { L0 := 0, lipEps := 1/1000000, lipDelta := 1/1000000000000, LgammaFactor := 19/20, maxIter := 100,
+    Lmin := 1/100000, Lmax := 100000000000000000000, stopCrit := .ApproxKKT, maxNoProgress := 10,
+    qubTol := 10 / 2^52, trTol := 10 / 2^52, ratioThresholdAcceptable := 1/5,
+    ratioThresholdGood := 4/5, radiusFactorRejected := 7/20, radiusFactorAcceptable := 999/1000,
+    radiusFactorGood := 5/2, initialRadius := 0, minRadius := 100 / 2^52,
+    computeRatioUsingNewStepsize := false, updateDirectionOnProxStep := true, recomputeLastProx := false,
+    disableAcceleration := false, ratioApproxFbe := true, alwaysOverwrite := true,
+    tolerance := 1/100000000, qubFuel := 4096 }
+
+/-- **`FuelOK` holds for the library defaults** with `N = 84`: `1e20 ≤ 1e-5·2⁸⁴` (`2⁸⁴ ≈ 1.93e25`), and
+    `84 < 4096`. -/
+theorem defaultParams_fuelOK : FuelOK defaultParams 84 :=
+  ⟨by norm_num [defaultParams], by norm_num [defaultParams], by norm_num [defaultParams],
+    by norm_num [defaultParams]⟩
+
+theorem defaultParams_paramsOK : ParamsOK defaultParams :=
+  ⟨by norm_num [defaultParams], by norm_num [defaultParams], by norm_num [defaultParams]⟩
+
+/-- … and the defaults satisfy the remaining parameter hypotheses of the C05 theorems:
+    `ratio_approx_fbe_quadratic_model → Lγ_factor < 1`, `0 ≤ ratio_threshold_acceptable`. -/
+theorem defaultParams_approx : (defaultParams.ratioApproxFbe = true → defaultParams.LgammaFactor < 1) ∧
+    0 ≤ defaultParams.ratioThresholdAcceptable :=
+  ⟨fun _ => by norm_num [defaultParams], by norm_num [defaultParams]⟩
 
 end Alpaqa.Pantr.ExampleQ
